@@ -397,6 +397,9 @@ def channel_values(case):
         vals = shape_values(shape, lo, hi, log, n)
         if case['input'] == 'LIS':
             vals = [ABSENT if v is ABSENT else stored68(v) for v in vals]
+        if case.get('absent') is not None:
+            # the format specification declares this number as "no value": a reading equal to it is absent too
+            vals = [ABSENT if (v is ABSENT or v == case['absent']) else v for v in vals]
         out.append(vals)
     return out
 
@@ -437,8 +440,9 @@ def build_lis(case):
     if cfg['kind'] == 'tables':
         recs.append(L.table_record(34, b'FILM', [b'MNEM', b'GCOD', b'GDEC', b'DEST', b'DSCA'], film_rows(cfg)))
         recs.append(pres_table(cfg))
+    absent = Fraction(-3997, 4) if case.get('absent') is None else Fraction(case['absent'])
     ebs = [(1, 66, b'\x00'), (2, 66, b'\x00'), (4, 66, bytes([255 if case['down'] else 1])),
-           (8, 68, L.enc68(Fraction(1, 2))), (9, 65, b'FEET'), (12, 68, L.enc68(Fraction(-3997, 4))), (13, 66, b'\x00')]
+           (8, 68, L.enc68(Fraction(1, 2))), (9, 65, b'FEET'), (12, 68, L.enc68(absent)), (13, 66, b'\x00')]
     dsbs = [L.dsb(b'DEPT', b'FEET', 4, 1, 68)]
     for mnem, units, _s, _lo, _hi, _log in case['chans']:
         dsbs.append(L.dsb(mnem.ljust(4).encode(), units.ljust(4).encode(), 4, 1, 68))
@@ -450,7 +454,7 @@ def build_lis(case):
         by = L.enc68(Fraction(xs[f]))
         for vals in chv:
             v = vals[f]
-            by += L.enc68(Fraction(-3997, 4)) if v is ABSENT else L.enc68(Fraction(v))
+            by += L.enc68(absent) if v is ABSENT else L.enc68(Fraction(v))
         frames.append(by)
     fpr = case.get('fpr', 4)
     for i in range(0, len(frames), fpr):
@@ -603,8 +607,9 @@ def margins_px():
 TOL_PX = 0.0501        # coordinates are written with one decimal
 
 
-def check_svg(path, case, curves):
+def check_svg(path, case, curves, sub=False):
     """Geometric oracle for one output file.  curves: model_curves() restricted to channels present in the input.
+    sub: the plot covers only part of the pass (no curve is demanded, everything else is).
     Returns (violations, summary)."""
     bad = []
     desc = describe(case)
@@ -673,7 +678,7 @@ def check_svg(path, case, curves):
             bad.append(({'kind': 'more_points_than_values'},
                         '%s: curve(s) %s: %d distinct depths carry a data point but the channel(s) hold %d non-absent values'
                         % (desc, '/'.join(c['id'] for c in g['cands']), len(g['ys']), limit)))
-    need = curve_certain(case, curves, chv)
+    need = None if sub else curve_certain(case, curves, chv)
     if need and npts == 0:
         bad.append(({'kind': 'no_curve_in_plot', 'input': case['input'], 'entry': case['entry']},
                     '%s: the file holds no curve point although %s has values inside its scale' % (desc, need)))
@@ -919,6 +924,7 @@ def run_plot(case):
     outs = []
     ret = None
     logcap = None
+    second_out = None
     try:
         if case['input'] == 'LIS':
             data = build_lis(case)
@@ -964,6 +970,13 @@ def run_plot(case):
             ret = plot.plotLogPassLIS(fr, lp, EngVal.EngVal(xs[0], b'FEET'), EngVal.EngVal(xs[-1], b'FEET'), film, fout,
                                       frameStep=1, title='C19')
             outs = [fout] if os.path.exists(fout) else []
+            if case.get('second') and case['n'] >= 8:
+                # the same Plot and LogPass objects asked for a part of the pass (scrolling): judged like any plot
+                fout2 = os.path.join(d, 'plot_second.svg')
+                a, b = (3, case['n'] - 3) if case['n'] < 30 else ((9 * case['n']) // 20, (11 * case['n']) // 20)
+                plot.plotLogPassLIS(fr, lp, EngVal.EngVal(xs[a], b'FEET'), EngVal.EngVal(xs[b], b'FEET'), film, fout2,
+                                    frameStep=1, title='C19 second interval')
+                second_out = fout2
         else:
             from TotalDepth.LAS.core import LASRead
             las = LASRead.LASRead(io.StringIO(text), 'las')
@@ -1025,6 +1038,10 @@ def run_plot(case):
         for p in outs:
             b, s = check_svg(p, case, curves)
             bad += b
+            summaries.append(s)
+        if second_out is not None:
+            b, s = check_svg(second_out, case, curves, sub=True)
+            bad += [(dict(sg, second_interval=True), 'second plot (the middle part of the pass) with the same Plot and LogPass objects: ' + m) for sg, m in b]
             summaries.append(s)
     return bad, tuple(summaries), nontrivial
 
@@ -1162,6 +1179,33 @@ def gen_xml(tier, input_kind, entry):
                                'chans': chans, 'n': n, 'down': down, 'scale': scale}
 
 
+def gen_absent(tier):
+    """The format specification declares 0.0 / -9999 (not the usual -999.25) as the absent value; SP's scale -80..20 has 0 inside."""
+    for absent in (0.0, -9999.0):
+        for rot in range(len(SHAPES)):
+            for entry in ('Plot', 'PlotLogs'):
+                c = tables_case([FILM_EEE], three_curves(), three_chans(rot), entry=entry)
+                c['absent'] = absent
+                yield c
+
+
+def gen_second(tier):
+    """A second plot of part of the pass with the same Plot / LogPass objects."""
+    for rot in range(len(SHAPES)):
+        for down in (False, True):
+            for scale in (SCALES if tier != 'quick' else [0, 200]):
+                for n, fpr, film in ((12, 4, FILM_EEE), (120, 20, ['1', 'EEE', '----', 'PF1', 'D40 '])):
+                    c = tables_case([film], three_curves(), three_chans(rot), n=n, down=down, scale=scale, fpr=fpr)
+                    c['second'] = True
+                    yield c
+    for uid in list(formats())[:(3 if tier == 'quick' else 8)]:
+        chs = format_channels(uid, True)
+        if not chs:
+            continue
+        chans = [[name, 'UNIT', SHAPES[(1 + i) % len(SHAPES)], stored68(lo), stored68(hi), log] for i, (name, lo, hi, log) in enumerate(chs)]
+        yield {'part': 'b', 'input': 'LIS', 'entry': 'Plot', 'cfg': {'kind': 'xml', 'uid': uid}, 'chans': chans, 'n': 12, 'down': False, 'scale': 0, 'second': True}
+
+
 def gen_logs_tables(tier):
     for scale in SCALES:
         for rot in range(len(SHAPES)):
@@ -1182,6 +1226,8 @@ GROUPS = {
     'logs_xml_lis': lambda tier: gen_xml(tier, 'LIS', 'PlotLogs'),
     'logs_xml_las': lambda tier: gen_xml(tier, 'LAS', 'PlotLogs'),
     'logs_dir': gen_logs_dir,
+    'absent': gen_absent,
+    'second': gen_second,
 }
 CHUNK = {'pres': (60, 200), 'film': (40, 80), 'logs_dir': (1, 2)}     # cases per shard (quick, thorough); other groups: (20, 25), a plot from a
 # LgFormat file costs about ten times a plot from a PRES table
